@@ -82,6 +82,15 @@ CF = 'contracts/c3dframe.c'
 RC = 'contracts/records.c'
 
 UNITS = [
+    U('Parameters_read', RD, 'h_Parameters_read', ['Parameters__ctor__c3d/contract_Parameters__ctor__c3d'],
+      ['C02', 'C13', 'C16', 'C18'],
+      replace=['c3d__readUint/contract_c3d__readUint', 'c3d__readInt/contract_c3d__readInt', 'Group__read/contract_any_Group__read',
+               'Group__parameter__c3d_int/contract_any_Group__parameter__c3d_int', 'Group__ctor/contract_any_Group__ctor',
+               'vf_vec_Group_push_back/contract_grow_vf_vec_Group_push_back',
+               'Parameters__group_nonConst__sz/contract_acc_Parameters__group_nonConst__sz'],
+      unwind=5, loops=True, timeout=5400, object_bits=12, tier='thorough', props={'memsafe': ['C13', 'C16']},
+      assumes=['termination of the record walker is not proved (no decreases clause on the outer loop)',
+               'Group::read / Group::parameter(file) are abstracted by their possible outcomes']),
     U('Group_write', RC, 'h_Group_write', ['Group__write/contract_Group__write'], ['C01', 'C03', 'C04', 'C13', 'C14', 'C17', 'C10', 'C18'],
       replace=['vf_stream_write/contract_vf_stream_write', 'ezc3d__toUpper/contract_ezc3d__toUpper'], unwind=5, timeout=900,
       level='PB', bound='name <= 127 and description <= 255 characters (format capacity); group without parameters'),
